@@ -15,6 +15,7 @@ from eudoxia.workload.csv_io import CSVWorkloadReader, CSVWorkloadWriter, Worklo
 
 ID = 'C14'
 KIND_READ, KIND_WRITE = 14, 24
+KIND_LAZY = 34
 LAWS = ['const', 'log', 'sqrt', 'linear3', 'linear7', 'squared', 'exp']     # Timing.law_table order
 LAW_IDX = {n: i for i, n in enumerate(LAWS)}
 PRIO_NAME = {1: 'QUERY', 2: 'INTERACTIVE', 3: 'BATCH_PIPELINE'}
@@ -578,7 +579,294 @@ def malformed_case(recipe):
     return case, hits, kind, status
 
 
+# ----------------------------------------------------------------------------------------------
+# the reader as the chain of lazy generators it is (kind 34, coq/Model/CsvLazy.v)
+
+def drive(gen, item):
+    """call next() on a real generator until it ends or raises: (items delivered, exception text or None,
+    what a further next() after the exception did)"""
+    out, raised, after = [], None, None
+    while True:
+        try:
+            x = next(gen)
+        except StopIteration:
+            break
+        except Exception as e:                                   # noqa: BLE001  any exception = refused
+            raised = f'{type(e).__name__}: {e}'
+            try:
+                next(gen)
+                after = 'delivered another item'
+            except StopIteration:
+                after = 'stopped'
+            except Exception as e2:                              # noqa: BLE001
+                after = f'raised again {type(e2).__name__}'
+            break
+        out.append(item(x))
+    return out, raised, after
+
+
+def lazy_real(text):
+    """what a consumer of batch_by_arrival() and a consumer of batch_by_pipeline() receive, step by step"""
+    def one(a):
+        return struct_of(a.pipeline, a.arrival_seconds)
+    batches, braised, bafter = drive(CSVWorkloadReader(io.StringIO(text)).batch_by_arrival(),
+                                     lambda b: [one(a) for a in b])
+    pipes, praised, pafter = drive(CSVWorkloadReader(io.StringIO(text)).batch_by_pipeline(), one)
+    return dict(batches=batches, braised=braised, bafter=bafter, pipes=pipes, praised=praised, pafter=pafter)
+
+
+def trace_real(text):
+    """the consumer: a real WorkloadTrace over the file (ticks_per_second 1, so get_next_batch_tick() is the
+    arrival time), run_one_tick called with current_tick set to thresholds derived from the text (any order,
+    the last one infinite): (pipeline ids each call returned, exception text or None, 'init' / call number)"""
+    import random
+    import zlib
+    rng = random.Random(zlib.crc32(text.encode()))
+    try:
+        arrs = sorted({float(r['arrival_seconds']) for r in csv.DictReader(io.StringIO(text))
+                       if (r.get('arrival_seconds') or '').strip()})
+    except ValueError:
+        arrs = []
+    marks = [rng.choice(arrs + [-1.0]) for _ in range(rng.randint(0, 4))] if arrs else []
+    if rng.random() < 0.5:
+        marks.sort()
+    marks.append(float('inf'))
+    try:
+        wt = CSVWorkloadReader(io.StringIO(text)).get_workload(1)
+    except Exception as e:                                       # noqa: BLE001
+        return [], f'{type(e).__name__}: {e}', 'init'
+    calls = []
+    for n, t in enumerate(marks):
+        wt.current_tick = t
+        try:
+            ps = wt.run_one_tick()
+        except Exception as e:                                   # noqa: BLE001
+            return calls, f'{type(e).__name__}: {e}', n
+        calls.append([p.pipeline_id for p in ps])
+    return calls, None, None
+
+
+def monitor_trace(recipe, text, obs, file_is_bad):
+    """WorkloadTrace keeps one batch of look-ahead: what run_one_tick returns, call after call, is the
+    concatenation of the first m batches batch_by_arrival delivers; if the constructor or a call raises, the file
+    breaks a format rule and m is below the number of delivered batches (the batch handed out in the raising call
+    is dropped); a good file is returned completely by the final catch-up call"""
+    hits = []
+
+    def hit(desc):
+        hits.append(dict(desc=desc, signature='trace-lookahead-wrong', recipe=recipe, gen=recipe['gen'],
+                         detail=text[:2000]))
+    calls, raised, where = trace_real(text)
+    got = [x for c in calls for x in c]
+    ids = [[s['pid'] for s in b] for b in obs['batches']]
+    m, flat = 0, []
+    while m < len(ids) and len(flat) < len(got):
+        flat += ids[m]
+        m += 1
+    if flat != got:
+        hit(f'run_one_tick returned pipelines {got}, not a concatenation of leading batches of {ids}')
+    elif raised and not file_is_bad:
+        hit(f'WorkloadTrace raises {raised} at {where} on a file that breaks no format rule')
+    elif raised and m > max(0, len(ids) - 1):
+        hit(f'WorkloadTrace raised at {where} after returning all {len(ids)} delivered batches {ids}')
+    elif not raised and file_is_bad:
+        hit(f'a file that breaks a format rule is replayed to the end without an error; returned {got}')
+    elif not raised and m != len(ids):
+        hit(f'a good file is not returned completely by the catch-up call: {got} of {ids}')
+    return hits, dict(raised_at=where if raised else None, returned=len(got), dropped=sum(map(len, ids)) - len(got))
+
+
+def enc_struct(s, pid_tok):
+    return [pid_tok[s['pid']], s['prio']] + Q(s['arrival']) + enc_list(s['ops'], enc_op)
+
+
+def enc_lazy_result(obs, pid_tok):
+    return (enc_list(obs['batches'], lambda b: enc_list(b, lambda s: enc_struct(s, pid_tok)))
+            + [11 if obs['braised'] else 0]
+            + enc_list(obs['pipes'], lambda s: enc_struct(s, pid_tok))
+            + [11 if obs['praised'] else 0])
+
+
+# the monitor's own reading of the format rules (property text / CSVWorkloadReader docstring), on the cells
+def cell_batches(rows):
+    out = []
+    for r in rows:
+        if out and out[-1][0]['pid'] == r['pid']:
+            out[-1].append(r)
+        else:
+            out.append([r])
+    return out
+
+
+def broken_rule(batch):
+    """the first format rule the rows of one pipeline break, or None"""
+    first = batch[0]
+    if first['prio'] == 0:
+        return 'first_no_priority'
+    if first['prio'] not in (1, 2, 3):
+        return 'unknown_priority'
+    if first['arr'] is None:
+        return 'first_no_arrival'
+    for r in batch[1:]:
+        if r['prio'] != 0:
+            return 'later_priority'
+        if r['arr'] is not None:
+            return 'later_arrival'
+    for i, r in enumerate(batch):
+        if r['law'] >= len(LAWS):
+            return 'unknown_law'
+        if any(all(q['op'] != p for q in batch[:i]) for p in r['parents']):
+            return 'undefined_parent'
+    return None
+
+
+def expected_struct(batch, pid_name):
+    """the pipeline a well-formed batch describes (a re-used operator id names the latest earlier row)"""
+    ops = []
+    for i, r in enumerate(batch):
+        parents = [max(j for j in range(i) if batch[j]['op'] == p) for p in r['parents']]
+        ops.append(dict(parents=parents, cpu=r['cpu'], law=LAWS[r['law']], mem=r['mem'], read=r['read']))
+    return dict(pid=pid_name, prio=batch[0]['prio'], arrival=batch[0]['arr'], ops=ops)
+
+
+def struct_same(w, g):
+    if w['pid'] != g['pid']:
+        return f'pipeline id {w["pid"]!r} became {g["pid"]!r}'
+    d = struct_diff([w], [g])
+    if d:
+        return d
+    for i, (a, b) in enumerate(zip(w['ops'], g['ops'])):
+        if a['parents'] != b['parents']:
+            return f'operator {i}: parent list {a["parents"]} became {b["parents"]}'
+    return None
+
+
+def monitor_lazy(recipe, text, rows, pid_tok, obs):
+    """the pipelines delivered before the error are exactly the leading well-formed pipelines of the file, in
+    file order; an error surfaces iff the file breaks a format rule; arrival batches are the runs of equal
+    arrival time of those pipelines, delivered up to (not including) the run being accumulated when the error
+    comes through; a generator that has raised delivers nothing more"""
+    hits = []
+
+    def hit(desc, sig):
+        hits.append(dict(desc=desc, signature=sig, recipe=recipe, gen=recipe['gen'], detail=text[:2000]))
+    name_of = {v: k for k, v in pid_tok.items()}
+    bs = cell_batches(rows)
+    rules = [broken_rule(b) for b in bs]
+    nbad = next((k for k, r in enumerate(rules) if r), None)
+    lead = bs if nbad is None else bs[:nbad]
+    want = [expected_struct(b, name_of[b[0]['pid']]) for b in lead]
+    where = '' if nbad is None else f' (pipeline {nbad} of {len(bs)} breaks rule "{rules[nbad]}")'
+    for level, got, raised, after in (('batch_by_pipeline', obs['pipes'], obs['praised'], obs['pafter']),
+                                      ('batch_by_arrival', [s for b in obs['batches'] for s in b], obs['braised'],
+                                       obs['bafter'])):
+        if nbad is not None and not raised:
+            hit(f'{level}: the file breaks a format rule{where} but no error surfaces; {len(got)} pipelines delivered',
+                'lazy-error-missing')
+        if nbad is None and raised:
+            hit(f'{level}: a file that breaks no format rule raises {raised} after {len(got)} pipelines',
+                'lazy-error-spurious')
+        if raised and after != 'stopped':
+            hit(f'{level}: after raising {raised} the generator {after}', 'lazy-continues-after-error')
+    got = obs['pipes']
+    if len(got) != len(want):
+        hit(f'batch_by_pipeline delivers {len(got)} pipelines before it ends, the file has {len(want)} leading '
+            f'well-formed pipelines{where}', 'lazy-prefix-wrong')
+    for k, (w, g) in enumerate(zip(want, got)):
+        d = struct_same(w, g)
+        if d:
+            hit(f'batch_by_pipeline delivers pipeline {k} differently from its rows: {d}{where}', 'lazy-loaded-differently')
+            break
+    # arrival batches: runs of equal arrival among the leading well-formed pipelines; the last run is dropped
+    # when an error follows
+    runs = []
+    for w in want:
+        if runs and runs[-1][0]['arrival'] == w['arrival']:
+            runs[-1].append(w)
+        else:
+            runs.append([w])
+    if nbad is not None:
+        runs = runs[:-1]
+    gotb = obs['batches']
+    if [len(b) for b in gotb] != [len(b) for b in runs]:
+        hit(f'batch_by_arrival delivers batches of sizes {[len(b) for b in gotb]}, expected {[len(b) for b in runs]}'
+            f'{where}', 'lazy-batches-wrong')
+    else:
+        for j, (wb, gb) in enumerate(zip(runs, gotb)):
+            ds = [struct_same(w, g) for w, g in zip(wb, gb)]
+            if any(ds):
+                hit(f'batch_by_arrival batch {j} differs from the rows: {[d for d in ds if d][0]}{where}',
+                    'lazy-loaded-differently')
+                break
+    info = dict(nbatches=len(bs), nbad=nbad, delivered=len(got), batches=len(gotb),
+                lost=len(got) - sum(len(b) for b in gotb),
+                shared_arrival=any(len(b) > 1 for b in gotb) or len(runs) < len(want))
+    h, tinfo = monitor_trace(recipe, text, obs, nbad is not None)
+    info.update(tinfo)
+    return hits + h, info
+
+
+def lazy_case(recipe, text):
+    """kind 34 for a file text; returns (case or None, hits, info)"""
+    obs = lazy_real(text)
+    try:
+        rows, pid_tok = cells_of_text(text)
+    except Unparseable:
+        return None, [], None
+    hits, info = monitor_lazy(recipe, text, rows, pid_tok, obs)
+    case = dict(kind=KIND_LAZY, inp=enc_list(rows, enc_row), obs=enc_lazy_result(obs, pid_tok), recipe=recipe,
+                gen=recipe['gen'])
+    return case, hits, info
+
+
+def gen_lazy(rng):
+    """longer files (3-10 small pipelines, runs of 1-3 pipelines per arrival time, arrival times not necessarily
+    increasing or distinct across runs) with 0, 1 or 2 malformations at random positions"""
+    pipes = []
+    pool = [float(gen_number(rng)) for _ in range(3)]
+    n = rng.randint(3, 10)
+    while len(pipes) < n:
+        arr = rng.choice(pool) if rng.random() < 0.35 else gen_number(rng)
+        for _ in range(rng.choice([1, 1, 2, 2, 3])):
+            if len(pipes) < n:
+                pipes.append([arr, gen_spec(rng, 4)])
+    base = dict(gen='G-csv', mode='direct', pipes=pipes)
+    c = rng.random()
+    nm = 0 if c < 0.1 else (1 if c < 0.8 else 2)
+    muts = []
+    for _ in range(nm):
+        kinds = MUST_REFUSE * 3 + tuple(k for k in OTHER_VARIATIONS if k != 'drop_memory_column') \
+            + ('ws_priority', 'blank_pieces')         # (a dropped column would break a second mutation)
+        for _ in range(20):
+            kind = rng.choice(kinds)
+            if suitable(base, kind):
+                break
+        muts.append(dict(kind=kind, a=rng.randint(0, 999), b=rng.randint(0, 999)))
+    return dict(gen='G-csv-lazy', base=base, muts=muts)
+
+
+def lazy_stream_case(recipe):
+    text, _ = write_real(recipe['base'])
+    applied = []
+    for m in recipe['muts']:
+        text, kind = mutate(text, m)
+        applied.append(kind)
+    case, hits, info = lazy_case(recipe, text)
+    return case, hits, info, applied
+
+
 def replay(recipe):
+    if recipe['gen'] == 'G-csv-lazy':
+        case, hits, _, _ = lazy_stream_case(recipe)
+        return case, hits
+    if recipe.get('part') == 'lazy':
+        base = {k: v for k, v in recipe.items() if k != 'part'}
+        if recipe['gen'] == 'G-csv':
+            text, _ = write_real(base)
+        else:
+            text, _ = mutate(write_real(base['base'])[0], base['mut'])
+        case, hits, _ = lazy_case(recipe, text)
+        return case, hits
     if recipe['gen'] == 'G-csv':
         part = recipe.get('part', 'read')
         base = {k: v for k, v in recipe.items() if k != 'part'}
@@ -597,6 +885,21 @@ def run(ctx):
         cases.append(c)
         if nontrivial:
             seen.add((c['kind'], tuple(c['inp'])))
+
+    def note_lazy(stream, info):
+        st[f'lazy_{stream}_files'] += 1
+        if info['nbad'] is None:
+            st[f'lazy_{stream}_ended_normally'] += 1
+        else:
+            st[f'lazy_{stream}_bad_pipeline_' + ('first' if info['nbad'] == 0 else
+                                                  'last' if info['nbad'] == info['nbatches'] - 1 else 'inside')] += 1
+            st[f'lazy_{stream}_delivered_before_error_{min(info["delivered"], 6)}'] += 1
+            st[f'lazy_{stream}_lost_batch_of_{min(info["lost"], 3)}'] += 1
+            st[f'lazy_{stream}_error_with_batches_delivered'] += info['batches'] > 0
+            st[f'lazy_{stream}_trace_raised_in_' + ('constructor' if info['raised_at'] == 'init' else 'run_one_tick')] += 1
+            st[f'lazy_{stream}_trace_returned_some_before_error'] += info['returned'] > 0
+            st[f'lazy_{stream}_trace_dropped_delivered_batch'] += info['dropped'] > 0
+        st[f'lazy_{stream}_files_with_shared_arrival'] += bool(info['shared_arrival'])
     for i in range(ctx.budget(500, 12000)):
         rng = ctx.case_rng('G-csv', i)
         rec = gen_valid(rng)
@@ -607,6 +910,11 @@ def run(ctx):
         note(wcase, big)
         if rcase:
             note(rcase, big)
+        lcase, h, info = lazy_case(dict(rec, part='lazy'), text)
+        hits += h
+        if lcase:
+            note(lcase, len(specs) >= 2)
+            note_lazy('valid', info)
         st['files_' + rec['mode']] += 1
         st['pipelines'] += len(specs)
         st['roundtrip_' + status] += 1
@@ -645,6 +953,24 @@ def run(ctx):
             note(case, kind != 'none')
         else:
             st['mutated_below_cell_level'] += 1
+        lcase, h, info = lazy_case(dict(rec, part='lazy'), mutate(write_real(rec['base'])[0], rec['mut'])[0])
+        hits += h
+        if lcase:
+            note(lcase, kind != 'none')
+            note_lazy('mutated', info)
+    for i in range(ctx.budget(900, 20000)):
+        rng = ctx.case_rng('G-csv-lazy', i)
+        rec = gen_lazy(rng)
+        lcase, h, info, applied = lazy_stream_case(rec)
+        hits += h
+        for kind in applied:
+            st[f'lazy_mut_{kind}'] += 1
+        st[f'lazy_files_with_{len(applied)}_mutations'] += 1
+        if lcase:
+            note(lcase, True)
+            note_lazy('long', info)
+        else:
+            st['lazy_below_cell_level'] += 1
     return dict(cases=cases, hits=hits, dist=dict(st), distinct_nontrivial=len(seen),
                 rule='G-csv: files of 0-10 real Pipeline objects (DAGs of 1-8 operators, multi-parent, multi-root, shuffled '
                      'and duplicated parent entries, all seven laws, int/decimal/53-bit/tiny/huge/zero values, memory_gb '
@@ -653,5 +979,9 @@ def run(ctx):
                      'real batch_by_pipeline (kind 14: pipelines read off the objects); G-csv-malformed: one of '
                      f'{len(MUST_REFUSE)} malformations or {len(SAME_STRUCTURE) + len(OTHER_VARIATIONS)} variations applied '
                      'to a valid file, accept/refuse and loaded structure vs the model. non-trivial = distinct inputs '
-                     'with a multi-operator pipeline or an applied mutation',
-                samples=[cases[0]['recipe'], cases[-1]['recipe']['mut']] if cases else [])
+                     'with a multi-operator pipeline or an applied mutation. kind 34 (lazy reader): for every file of the '
+                     'two streams above and for G-csv-lazy (3-10 pipelines, runs of 1-3 pipelines per arrival time, 0/1/2 '
+                     'malformations at random positions) the real batch_by_arrival() and batch_by_pipeline() generators are '
+                     'driven one next() at a time; compared: the batches / pipelines delivered before the end or the '
+                     'exception, and whether an exception came',
+                samples=[cases[0]['recipe'], cases[-1]['recipe'].get('muts', cases[-1]['recipe'].get('mut'))] if cases else [])
